@@ -315,11 +315,13 @@ def c19(prop, tier):
 # Replicator: C11 (cancellation) and C10 (refused entries)
 
 DAGS = {
-    'A': dict(hashes='{1,2,3,4}', links='LinksDef', heads='HeadsA', local='{2,3,4}', bad='{}', abort='{}',
+    'A': dict(hashes='{1,2,3,4}', links='LinksDef', heads='HeadsA', local='{2,3,4}', bad='{}', abort='{}', syncpass='{}',
               jl={'1': [], '2': [1], '3': [1, 2], '4': [1, 2]}, jh={'1': [3], '2': [2, 4], '3': [3, 4]}, jbad=[]),
-    'B': dict(hashes='{1,2,3,4,5}', links='LinksB', heads='HeadsB', local='{3,4}', bad='{2,5}', abort='{}',
+    'B': dict(hashes='{1,2,3,4,5}', links='LinksB', heads='HeadsB', local='{3,4}', bad='{2,5}', abort='{}', syncpass='{}',
               jl={'1': [], '2': [], '3': [1], '4': [1, 5], '5': []}, jh={'1': [2, 3], '2': [4, 3, 2], '3': [3, 4]}, jbad=[2, 5]),
-    'C': dict(hashes='{1,2,3,4,5}', links='LinksB', heads='HeadsC', local='{3,4}', bad='{2,5}', abort='{6}',
+    'D': dict(hashes='{1,2,3,4,5,7}', links='LinksD', heads='HeadsD', local='{3,4,7}', bad='{2,5,7}', abort='{}', syncpass='{7}',
+              jl={'1': [], '2': [], '3': [1], '4': [1, 5], '5': [], '7': []}, jh={'1': [7, 3], '2': [4, 7, 2], '3': [3, 4]}, jbad=[2, 5, 7]),
+    'C': dict(hashes='{1,2,3,4,5}', links='LinksB', heads='HeadsC', local='{3,4}', bad='{2,5}', abort='{6}', syncpass='{}',
               jl={'1': [], '2': [], '3': [1], '4': [1, 5], '5': []}, jh={'1': [3, 6], '2': [4, 3, 2], '3': [3, 4]}, jbad=[2, 5]),
 }
 
@@ -327,10 +329,10 @@ DAGS = {
 def rp_cfg(name, spec, dag, conc, cancels, pinned, invs='NoWedge NoHang SemOK QueueMatchesWorkers NoDeadWorkers', maxw=10):
     d = DAGS[dag]
     return (name, '''SPECIFICATION %s
-CONSTANTS Hash = %s  Links <- %s  Local = %s  Bad = %s  Abort = %s  NReq = 3  ReqHeads <- %s  Conc = %d  MaxCancel = %d  MaxW = %d  Pinned = %s
+CONSTANTS Hash = %s  Links <- %s  Local = %s  Bad = %s  SyncPass = %s  Abort = %s  NReq = 3  ReqHeads <- %s  Conc = %d  MaxCancel = %d  MaxW = %d  Pinned = %s
 INVARIANTS %s
 CHECK_DEADLOCK FALSE
-''' % (spec, d['hashes'], d['links'], d['local'], d['bad'], d['abort'], d['heads'], conc, cancels, maxw, 'TRUE' if pinned else 'FALSE', invs))
+''' % (spec, d['hashes'], d['links'], d['local'], d['bad'], d['syncpass'], d['abort'], d['heads'], conc, cancels, maxw, 'TRUE' if pinned else 'FALSE', invs))
 
 
 RP_KINDS = {'C11': {'wedged', 'missing', 'view-stale'}, 'C10': {'wedged', 'missing', 'bad-merged', 'view-stale'}}
@@ -361,7 +363,7 @@ def run_replicator(ck, prop, tier, dag, cancels, n_sim, depth):
         for st in b['steps']:
             pass
         acts = [s['action'] for s in b['steps']]
-        if ('Cancel' in acts) or (dag in 'BC' and 'JoinBatch' in acts):
+        if ('Cancel' in acts) or (dag in 'BCD' and 'JoinBatch' in acts):
             ck.distinct.add(vlib.beh_signature(b))
     inp = {'property': prop, 'seed': SEED, 'dag': dag, 'req_heads': d['jh'], 'nreq': 3, 'bad': d['jbad'], 'abort': [6] if dag == 'C' else [], 'links': d['jl'],
            'behaviours': bs, 'mutant': mutants}
@@ -399,4 +401,6 @@ def c10(prop, tier):
     run_replicator(ck, prop, tier, 'B', 0, 120 if thorough else 20, 40)
     # the same with a first announcement that is given up as a whole (valid head listed before a wrong-hash head)
     run_replicator(ck, prop, tier, 'C', 0, 120 if thorough else 20, 40)
+    # ... and with a head written for another database by an authorised writer, which passes Sync and is refused at the join (DAG D)
+    run_replicator(ck, prop, tier, 'D', 0, 120 if thorough else 14, 44)
     return ck.finish()
